@@ -28,19 +28,22 @@ V0S = [10.0, 40.0, 160.0]
 
 def plan(tier, seed):
     groups = []
-    g = [{"kind": "meaning", "eos": e, "p": [e0, b0, bp, v0]} for e in EOSES for e0, b0, bp, v0 in itertools.product(E0S, B0S, BPS, V0S)]
+    e0s, b0s, bps, v0s = (E0S, B0S, BPS, V0S) if tier == "quick" else ([-10.0, -1.0, 0.0, 3.0], [0.05, 0.3, 1.0, 2.5, 6.0], [2.5, 3.5, 4.0, 4.7, 5.5, 7.0, 9.0], [5.0, 10.0, 40.0, 160.0, 900.0])
+    g = [{"kind": "meaning", "eos": e, "p": [e0, b0, bp, v0]} for e in EOSES for e0, b0, bp, v0 in itertools.product(e0s, b0s, bps, v0s)]
     for k in range(0, len(g), 54):
         groups.append(g[k:k + 54])
     g = []
     for e in EOSES:
-        for (b0, bp, v0) in itertools.product(B0S, BPS[::2], V0S[::2]):
-            for npts, spacing, off in itertools.product((5, 7, 11), ("V", "a"), (0.0, 0.04, -0.05)):
+        for (b0, bp, v0) in (itertools.product(B0S, BPS[::2], V0S[::2]) if tier == "quick" else itertools.product(b0s, bps, v0s)):
+            for npts, spacing, off in itertools.product((5, 7, 11) if tier == "quick" else (5, 6, 7, 9, 11, 15, 21), ("V", "a"), (0.0, 0.04, -0.05) if tier == "quick" else (0.0, 0.02, 0.04, 0.07, -0.03, -0.05, -0.08)):
                 g.append({"kind": "fit", "eos": e, "p": [-3.0, b0, bp, v0], "npts": npts, "spacing": spacing, "off": off})
     for k in range(0, len(g), 36):
         groups.append(g[k:k + 36])
     g = []
     for e in EOSES:
-        for law, P, tmax, elshape, grid in itertools.product(("const", "linear", "debye"), (None, 0.0, 5.0, -2.0), (None, 300.0, 700.0), ("V", "TV"), ("uniform", "nonuniform")):
+        for law, P, tmax, elshape, grid in itertools.product(("const", "linear", "debye"), (None, 0.0, 5.0, -2.0) if tier == "quick" else (None, 0.0, 0.5, 5.0, 20.0, -2.0, -6.0),
+                                                             (None, 300.0, 700.0) if tier == "quick" else (None, 0.0, 50.0, 100.0, 300.0, 420.0, 700.0, 950.0, 1000.0, 5000.0), ("V", "TV"),
+                                                             ("uniform", "nonuniform") if tier == "quick" else ("uniform", "nonuniform", "fine", "short")):
             if tier == "quick" and grid == "nonuniform" and (P not in (None, 5.0) or tmax == 300.0):
                 continue
             g.append({"kind": "qha", "eos": e, "law": law, "P": P, "tmax": tmax, "el": elshape, "grid": grid})
@@ -95,6 +98,12 @@ def vgrid(v0, npts, spacing, off):
     return a ** 3
 
 
+def trapped(case, bp_fit):
+    """The recorded finding: the Vinet expression has a removable singularity at B0'=1 (division by (B0'-1)**2) and the
+    least-squares iteration started from B0=1, B0'=4 ends there for very stiff data (B0 = 6 eV/A^3)."""
+    return case["eos"] == "vinet" and case["p"][1] >= 6.0 and case["p"][2] > 2.0 and abs(bp_fit - 1.0) < 0.02
+
+
 def run_fit(case):
     from phonopy.qha.eos import EOSFit, fit_to_eos, get_eos
 
@@ -115,6 +124,9 @@ def run_fit(case):
     for g_ in (got, got2):
         e = np.abs((g_ - p) / np.maximum(np.abs(p), 1.0)).max()
         if e > 1e-6:
+            if trapped(case, g_[2]):
+                return dict(ok=False, sig="C20/fit/vinet-trapped-at-bprime-1", resid=float(e), nontrivial=nontriv,
+                            msg="vinet fit of exact data B0=%g B0'=%g V0=%g (n=%d %s off=%g) stops at the removable singularity B0'=1: fitted %s" % (p[1], p[2], p[3], case["npts"], case["spacing"], case["off"], g_.tolist()))
             return dict(ok=False, sig="C20/fit/parameters/%s" % case["eos"], resid=float(e), nontrivial=nontriv,
                         msg="%s grid n=%d %s off=%g: fitted %s, true %s" % (case["eos"], case["npts"], case["spacing"], case["off"], g_.tolist(), p.tolist()))
     # BulkModulus front end (GPa)
@@ -128,6 +140,9 @@ def run_fit(case):
     Pg = 3.0
     bm2 = BulkModulus(V, E - V * Pg / EVAngstromToGPa, pressure=Pg, eos=case["eos"])
     if abs(bm2.equilibrium_volume / p[3] - 1) > 1e-7:
+        if trapped(case, bm2.b_prime):
+            return dict(ok=False, sig="C20/fit/vinet-trapped-at-bprime-1", nontrivial=nontriv,
+                        msg="vinet fit (BulkModulus, pressure 3 GPa) of exact data B0=%g B0'=%g V0=%g (n=%d %s off=%g) stops at the removable singularity B0'=1: B'=%r V=%r" % (p[1], p[2], p[3], case["npts"], case["spacing"], case["off"], bm2.b_prime, bm2.equilibrium_volume))
         return dict(ok=False, sig="C20/fit/BulkModulus-pressure/%s" % case["eos"], nontrivial=nontriv, msg="pressure is not applied as +PV: V=%r" % bm2.equilibrium_volume)
     return dict(ok=True, nontrivial=nontriv, transitions=3, outcome="ok:fit")
 
@@ -154,6 +169,10 @@ def run_qha(case):
     f = RE.EOS[case["eos"]]
     if case["grid"] == "uniform":
         T = np.arange(0.0, 1001.0, 50.0)
+    elif case["grid"] == "fine":
+        T = np.arange(0.0, 1001.0, 10.0)
+    elif case["grid"] == "short":
+        T = np.array([0.0, 100.0, 200.0, 300.0, 400.0])
     else:
         T = np.array([0.0, 10, 30, 70, 150, 200, 300, 420, 500, 700, 760, 1000], float)
     E0, B0, BP, V0 = laws(case["law"], T)
